@@ -23,6 +23,12 @@ fn check_cells_inner(case: &RegCase, st: &mut Stats, exclude_known: bool) -> Res
         st.exclude("KF-C05-ragged / KF-C03-starved-cell (span over a column without a non-empty span-1 cell)");
         return Ok(());
     }
+    if t.has_blank_pre() {
+        // a spaces-only <pre> renders nothing but has a size estimate: its column is drawn although it
+        // holds no text, which the column-liveness model below does not describe (C05 checks these tables)
+        st.class("skipped_blank_pre_cell");
+        return Ok(());
+    }
     let (html, nlabels) = t.doc().to_html_n();
     if nlabels > crate::gen::max_labels() {
         st.class("skipped_too_many_text_nodes");
@@ -175,7 +181,7 @@ fn check_cells_inner(case: &RegCase, st: &mut Stats, exclude_known: bool) -> Res
             }
             bounds.sort();
             // rows with content, in order, correspond to bands
-            let content_rows: Vec<usize> = (0..t.rows.len()).filter(|r| t.rows[*r].iter().any(|c| c.kind != CellKind::Empty)).collect();
+            let content_rows: Vec<usize> = (0..t.rows.len()).filter(|r| t.rows[*r].iter().any(|c| !c.kind.renders_nothing())).collect();
             // a boundary (after live column l) is drawn iff some rendered row has a cell ending there
             let drawn_cells = |r: usize| -> Vec<(usize, usize, usize)> {
                 let mut drawn = vec![];
